@@ -108,3 +108,156 @@ Section PrecSR.
   Qed.
 
 End PrecSR.
+
+(** ** Cells with any number of actions.
+
+    [resolveConflict] keeps a running maximum w.r.t. [Compare].  When every action of the cell has
+    a declared handle and different actions lie on different levels, [Compare] is a strict total
+    order on the cell, no comparison fails, and the loop returns the action on the highest level
+    (smallest index) — for every order in which the cell is enumerated. *)
+
+Lemma handle_eqb_eq h k : handle_eqb h k = true -> h = k.
+Proof.
+  destruct h as [a|p], k as [b|q]; simpl; intros H; try discriminate.
+  - apply look_eqb_eq in H. now subst.
+  - apply prod_eqb_eq in H. now subst.
+Qed.
+
+Lemma ohandle_eqb_eq h k : ohandle_eqb h k = true -> h = k.
+Proof.
+  destruct h, k; simpl; intros H; try discriminate; auto. apply handle_eqb_eq in H. now subst.
+Qed.
+
+Section Many.
+  Variable ls : levels.
+
+  (** the level of a pair, when its handle is declared *)
+  Definition plevel (p : pair) : option nat :=
+    match precedence ls (snd p) with Some (k, _) => Some k | None => None end.
+
+  Lemma compare_levels l r kl kr :
+    plevel l = Some kl -> plevel r = Some kr -> kl <> kr ->
+    compare ls l r = Some (if kl <? kr then 1%Z else (-1)%Z).
+  Proof.
+    unfold plevel, compare. intros Hl Hr Hne.
+    destruct (pair_eqb l r) eqn:E.
+    - exfalso. unfold pair_eqb in E. apply andb_true_iff in E as [_ E]. apply ohandle_eqb_eq in E.
+      rewrite E in Hl. rewrite Hl in Hr. inversion Hr. contradiction.
+    - destruct (precedence ls (snd l)) as [[k1 a1]|]; [|discriminate].
+      destruct (precedence ls (snd r)) as [[k2 a2]|]; [|discriminate].
+      inversion Hl; inversion Hr; subst.
+      destruct (kl <? kr) eqn:L1; [reflexivity|].
+      destruct (kr <? kl) eqn:L2; [reflexivity|].
+      apply Nat.ltb_ge in L1. apply Nat.ltb_ge in L2. lia.
+  Qed.
+
+  Lemma pair_eqb_refl p : pair_eqb p p = true.
+  Proof.
+    unfold pair_eqb. destruct p as [x h]. simpl.
+    assert (Ha : action_eqb x x = true) by (destruct x; simpl; auto using Z.eqb_refl, prod_eqb_refl).
+    assert (Hh : ohandle_eqb h h = true).
+    { destruct h as [[[a|]|q]|]; simpl; auto using Nat.eqb_refl, prod_eqb_refl. }
+    now rewrite Ha, Hh.
+  Qed.
+
+  Lemma compare_refl p : compare ls p p = Some 0%Z.
+  Proof. unfold compare. now rewrite pair_eqb_refl. Qed.
+
+  (** declared, and injective levels, on a list of pairs *)
+  Definition ranked (l : list pair) : Prop :=
+    (forall p, In p l -> exists k, plevel p = Some k) /\
+    (forall p q, In p l -> In q l -> plevel p = plevel q -> p = q).
+
+  Lemma resolve_loop_min : forall ps mx, ranked (mx :: ps) ->
+    exists m km, resolve_loop ls ps mx = Some m /\ In m (mx :: ps) /\ plevel m = Some km /\
+      forall p kp, In p (mx :: ps) -> plevel p = Some kp -> km <= kp.
+  Proof.
+    induction ps as [|p ps IH]; intros mx [Hd Hinj].
+    - destruct (Hd mx (or_introl eq_refl)) as [k Hk]. exists mx, k. simpl. repeat split; auto.
+      intros q kq [Hq|[]] Hkq. subst q. rewrite Hk in Hkq. inversion Hkq. lia.
+    - simpl. destruct (Hd mx (or_introl eq_refl)) as [km Hkm].
+      destruct (Hd p (or_intror (or_introl eq_refl))) as [kp Hkp].
+      destruct (Nat.eq_dec kp km) as [E|E].
+      + (* same level: the same pair *)
+        assert (Epm : p = mx) by (apply Hinj; simpl; auto; congruence). subst p.
+        rewrite compare_refl. simpl.
+        destruct (IH mx) as [m [k [H1 [H2 [H3 H4]]]]].
+        { split; [intros q Hq; apply Hd; destruct Hq; simpl; auto|intros q r Hq Hr; apply Hinj; destruct Hq, Hr; simpl; auto]. }
+        exists m, k. split; [exact H1|]. split; [destruct H2; simpl; auto|]. split; [exact H3|].
+        intros q kq [Hq|[Hq|Hq]] Hkq; apply (H4 q kq); simpl; auto.
+      + rewrite (compare_levels _ _ _ _ Hkp Hkm E).
+        set (nm := if (0 <? (if (kp <? km)%nat then 1 else -1))%Z then p else mx).
+        assert (Hnm : (nm = p /\ kp < km) \/ (nm = mx /\ km < kp)).
+        { unfold nm. destruct (kp <? km) eqn:L; simpl.
+          - left. apply Nat.ltb_lt in L. auto.
+          - right. apply Nat.ltb_ge in L. split; auto. lia. }
+        destruct (IH nm) as [m [k [H1 [H2 [H3 H4]]]]].
+        { split.
+          - intros q [Hq|Hq]; [|apply Hd; simpl; auto]. subst q. destruct Hnm as [[-> _]|[-> _]]; apply Hd; simpl; auto.
+          - intros q r Hq Hr. apply Hinj.
+            + destruct Hq as [Hq|Hq]; [subst q; destruct Hnm as [[-> _]|[-> _]]; simpl; auto|simpl; auto].
+            + destruct Hr as [Hr|Hr]; [subst r; destruct Hnm as [[-> _]|[-> _]]; simpl; auto|simpl; auto]. }
+        exists m, k. split; [exact H1|]. split; [|split; [exact H3|]].
+        * destruct H2 as [H2|H2]; [subst m; destruct Hnm as [[-> _]|[-> _]]; simpl; auto|simpl; auto].
+        * intros q kq Hq Hkq.
+          assert (Hn : exists kn, plevel nm = Some kn /\ kn <= km /\ kn <= kp).
+          { destruct Hnm as [[-> L]|[-> L]]; [exists kp|exists km]; repeat split; auto; lia. }
+          destruct Hn as [kn [Hkn [L1 L2]]].
+          pose proof (H4 nm kn (or_introl eq_refl) Hkn) as Hmin.
+          destruct Hq as [Hq|[Hq|Hq]].
+          -- subst q. rewrite Hkm in Hkq. inversion Hkq; subst. lia.
+          -- subst q. rewrite Hkp in Hkq. inversion Hkq; subst. lia.
+          -- apply (H4 q kq); simpl; auto.
+  Qed.
+
+  (** the level of an action of the cell ACTION[s,a] *)
+  Definition alevel (a : look) (x : action) : option nat := plevel (x, handle_of_action a x).
+
+  Definition ranked_cell (a : look) (l : list action) : Prop :=
+    (forall x, In x l -> exists k, alevel a x = Some k) /\
+    (forall x y, In x l -> In y l -> alevel a x = alevel a y -> x = y).
+
+  Theorem resolve_conflict_max a l : l <> [] -> ranked_cell a l ->
+    exists x k, resolve_conflict ls a l = Some x /\ In x l /\ alevel a x = Some k /\
+      forall y ky, In y l -> alevel a y = Some ky -> k <= ky.
+  Proof.
+    intros Hne [Hd Hinj]. unfold resolve_conflict.
+    destruct l as [|x0 l]; [congruence|]. cbn [map].
+    set (f := fun x => (x, handle_of_action a x)).
+    assert (Hr : ranked (f x0 :: map f (x0 :: l))).
+    { split.
+      - intros p Hp. assert (Hp' : In p (map f (x0 :: l))) by (destruct Hp as [Hp|Hp]; [subst; now left|exact Hp]).
+        apply in_map_iff in Hp' as [x [E Hx]]. subst p. apply (Hd x Hx).
+      - intros p q Hp Hq E.
+        assert (Hp' : In p (map f (x0 :: l))) by (destruct Hp as [Hp|Hp]; [subst; now left|exact Hp]).
+        assert (Hq' : In q (map f (x0 :: l))) by (destruct Hq as [Hq|Hq]; [subst; now left|exact Hq]).
+        apply in_map_iff in Hp' as [x [Ex Hx]]. apply in_map_iff in Hq' as [y [Ey Hy]]. subst p q.
+        f_equal. unfold f. rewrite (Hinj x y Hx Hy E). reflexivity. }
+    destruct (resolve_loop_min _ _ Hr) as [m [k [H1 [H2 [H3 H4]]]]].
+    change ((x0, handle_of_action a x0) :: map f l) with (map f (x0 :: l)).
+    change (x0, handle_of_action a x0) with (f x0). rewrite H1.
+    assert (H2' : In m (map f (x0 :: l))) by (destruct H2 as [H2|H2]; [subst; now left|exact H2]).
+    apply in_map_iff in H2' as [x [Ex Hx]]. subst m.
+    exists x, k. repeat split; auto.
+    intros y ky Hy Hky. apply (H4 (f y) ky); [right; now apply in_map|exact Hky].
+  Qed.
+
+  (** hence the answer does not depend on the order (or multiplicity) in which the cell is enumerated *)
+  Corollary resolve_conflict_order_independent a l l' :
+    l <> [] -> ranked_cell a l -> (forall x, In x l <-> In x l') ->
+    resolve_conflict ls a l = resolve_conflict ls a l'.
+  Proof.
+    intros Hne Hr Hsame.
+    assert (Hne' : l' <> []).
+    { destruct l as [|x l]; [congruence|]. intros E. subst l'. exact (proj1 (Hsame x) (or_introl eq_refl)). }
+    assert (Hr' : ranked_cell a l').
+    { destruct Hr as [Hd Hinj]. split.
+      - intros x Hx. apply Hd. now apply Hsame.
+      - intros x y Hx Hy. apply Hinj; now apply Hsame. }
+    destruct (resolve_conflict_max a l Hne Hr) as [x [k [E1 [Hx [Hk Hmin]]]]].
+    destruct (resolve_conflict_max a l' Hne' Hr') as [x' [k' [E1' [Hx' [Hk' Hmin']]]]].
+    rewrite E1, E1'. f_equal. destruct Hr as [_ Hinj]. apply Hinj; auto; [now apply Hsame|].
+    pose proof (Hmin x' k' (proj2 (Hsame x') Hx') Hk'). pose proof (Hmin' x k (proj1 (Hsame x) Hx) Hk).
+    rewrite Hk, Hk'. f_equal. lia.
+  Qed.
+End Many.
